@@ -28,6 +28,49 @@ class Budget(BaseException):
     """path / time budget of a configuration exhausted: INCONCLUSIVE"""
 
 
+class FrozenWrite(BaseException):
+    """a store into a buffer the harness froze (write monitor, C15)"""
+
+
+class Swapped(object):
+    """bswap(x): the value read from the bytes of multi-byte x in the opposite byte
+    order.  An uninterpreted involution: Swapped(Swapped(x)) is x (see bswap()); no
+    arithmetic is defined on it (garbage), equality is structural on the payload."""
+    __slots__ = ("x",)
+
+    def __init__(self, x):
+        self.x = x
+
+    def __repr__(self):
+        return "bswap(%r)" % (self.x,)
+
+    def __eq__(self, o):
+        if isinstance(o, Swapped):
+            return self.x == o.x
+        return False
+
+    def __ne__(self, o):
+        r = self.__eq__(o)
+        if isinstance(r, SBool):
+            return ~r
+        return not r
+
+    def __hash__(self):
+        return hash(("bswap", self.x))
+
+    def _no(self, *a):
+        raise Unsupported("arithmetic/comparison on a byte-swapped (garbage) value")
+
+    __add__ = __radd__ = __sub__ = __rsub__ = __mul__ = __rmul__ = __truediv__ = __rtruediv__ = _no
+    __lt__ = __le__ = __gt__ = __ge__ = __neg__ = __abs__ = __float__ = __int__ = __index__ = _no
+
+
+def bswap(c):
+    if isinstance(c, Swapped):
+        return c.x
+    return Swapped(c)
+
+
 # ----------------------------------------------------------------------------
 # lifting
 
